@@ -73,6 +73,9 @@ def instances(tier, seed):
         return f"{'perm' if c['perm'] else 'cond'}/{'dir' if c['has_dir'] else '-'}/{'ref' if c['has_ref'] else '-'}/{c['type']}"
     for a, b in pairs:
         out.append(dict(label=f'classify_pair M1={lab(a)} M2={lab(b)}', kind='classify_multi', nodes=[a, b]))
+    for s_ in range(1000*seed, 1000*seed+(40 if tier == 'quick' else 200)):
+        out.append(dict(label=f'classify_rnd rnd{s_}', kind='classify_rnd', template=f'rnd{s_}'))
+        out.append(dict(label=f'evaluate_rnd rnd{s_}', kind='evaluate_rnd', template=f'rnd{s_}'))
     trip = [reps[1], reps[0], reps[4]], [reps[5], reps[3], reps[0]], [reps[2], reps[4], reps[3]], [reps[3], reps[2], reps[1]]
     for t in trip:
         out.append(dict(label='classify_triple '+' '.join(lab(c) for c in t), kind='classify_multi', nodes=list(t)))
@@ -231,9 +234,54 @@ def _mk_multi_graph(nodes, ds, rs):
     return g, ms
 
 
-def _multi_outcome(nodes, ds, rs):
+def _mk_rnd_graph(name, ds, rs):
+    """seeded random graph (pools/dsg_random.py) with the drawn directions / references replaced by ds / rs"""
+    from pools import dsg_random
+    g, info = dsg_random.random_template(int(name[3:]), metric_hook=lambda k, d, r: (ds[k], rs[k]))
+    return g, info['metrics']
+
+
+def _rnd_nodes(name):
+    """per metric node of the random graph: the configuration the single-node contract speaks about. "Exists in every
+    architecture" is decided by listing and materialising every valid design (not by the permanence analysis the
+    classification itself uses)."""
+    from pools import dsg_random
+    from adsg_core import GraphProcessor
+    g, info = dsg_random.random_template(int(name[3:]))
+    gp = GraphProcessor(g)
+    x_all, _ = gp.get_all_discrete_x()
+    archs = [gp.get_graph(list(x))[0] for x in x_all]
+    # derivable from the start node over derivation edges without passing a choice node (own traversal)
+    from adsg_core.graph.graph_edges import EdgeType
+    from adsg_core.graph.adsg_nodes import ChoiceNode
+    nxg = g.graph
+    start = [n for n in nxg.nodes if str(n) == '[R]' or getattr(n, 'name', None) == 'R'][:1]
+    always, todo = set(start), list(start)
+    while todo:
+        n = todo.pop()
+        if isinstance(n, ChoiceNode):
+            continue
+        for _, tgt, data in nxg.out_edges(n, data=True):
+            if data.get('type') == EdgeType.DERIVES and tgt not in always:
+                always.add(tgt)
+                todo.append(tgt)
+    nodes = []
+    for m in info['metrics']:
+        in_all = all(m in a.graph.nodes for a in archs)
+        # 'maybe': in every architecture, but only through choices (e.g. derived from every option of a choice). The
+        # property makes "exists in every architecture" a necessary condition for an objective, not a sufficient one;
+        # the library takes the initially confirmed nodes. Both readings are accepted for such a node.
+        perm = True if (m in always and in_all) else ('maybe' if in_all else False)
+        if m in always and not in_all:
+            raise RuntimeError(f'{name}: {m} is derived without any choice but missing from an architecture')
+        nodes.append(dict(perm=perm, has_dir=m.dir is not None, has_ref=m.ref is not None,
+                          type=None if m.type is None else m.type.name))
+    return nodes, [[m in a.graph.nodes for m in info['metrics']] for a in archs], [list(map(float, x)) for x in x_all]
+
+
+def _multi_outcome(nodes, ds, rs, graph=None):
     from adsg_core import DSGEvaluator
-    g, ms = _mk_multi_graph(nodes, ds, rs)
+    g, ms = _mk_multi_graph(nodes, ds, rs) if graph is None else _mk_rnd_graph(graph, ds, rs)
     ev = DSGEvaluator(g)
     try:
         objs, cons = ev.objectives, ev.constraints
@@ -243,18 +291,37 @@ def _multi_outcome(nodes, ds, rs):
     return 'ok', [(idx.get(id(o.node), -1), o.sign) for o in objs], [(idx.get(id(c.node), -1), c.sign, c.ref) for c in cons]
 
 
-def _multi_expected(nodes):
-    roles = [_expected(c['perm'], c['has_dir'], c['has_ref'], c['type']) for c in nodes]
+def _multi_expected(nodes, reading=None):
+    """reading: for nodes with perm == 'maybe', the list of booleans to read them as (default: not permanent)"""
+    roles = []
+    k = 0
+    for c in nodes:
+        pm = c['perm']
+        if pm == 'maybe':
+            pm = bool(reading[k]) if reading is not None else False
+            k += 1
+        roles.append(_expected(pm, c['has_dir'], c['has_ref'], c['type']))
     if 'error' in roles:
         return 'error', roles
     return 'ok', roles
 
 
+def _readings(nodes):
+    n = len([c for c in nodes if c['perm'] == 'maybe'])
+    return [list(r) for r in itertools.product((False, True), repeat=n)]
+
+
+def _run_classify_rnd(inst, res):
+    nodes, _, _ = _rnd_nodes(inst['template'])
+    _run_classify_multi(dict(inst, nodes=nodes, graph=inst['template']), res)
+
+
 def _run_classify_multi(inst, res):
     nodes = inst['nodes']
+    graph = inst.get('graph')
     ds = [sym_int(f'dir{i+1}') if c['has_dir'] else None for i, c in enumerate(nodes)]
     rs = [sym_real(f'ref{i+1}') if c['has_ref'] else None for i, c in enumerate(nodes)]
-    ex = explore(lambda: _multi_outcome(nodes, ds, rs))
+    ex = explore(lambda: _multi_outcome(nodes, ds, rs, graph))
     absorb(res, ex)
     if not ex.complete:
         res['status'] = INCONCLUSIVE
@@ -262,7 +329,7 @@ def _run_classify_multi(inst, res):
         return
     require_exhaustive(res, ex)
     want_status, roles = _multi_expected(nodes)
-    cfg = dict(nodes=nodes)
+    cfg = dict(nodes=nodes, graph=graph)
     for p in ex.paths:
         res['obligations'] += 1
         s = z3.Solver()
@@ -276,28 +343,35 @@ def _run_classify_multi(inst, res):
             _viol(res, 'classify_multi', dict(kind='raises', **cfg), cfg, inputs, repr(p.exc), [want_status, roles])
             continue
         status, objs, cons = p.value
-        bad = None
-        if status != want_status:
-            bad = f'{status}, contract says {want_status} (roles {roles})'
-        elif status == 'ok':
-            want_o = [i for i, r in enumerate(roles) if r == 'obj']
-            want_c = [i for i, r in enumerate(roles) if r == 'con']
-            if [o[0] for o in objs] != want_o or [c[0] for c in cons] != want_c:
-                bad = f'objectives {[o[0] for o in objs]} constraints {[c[0] for c in cons]}, contract: {want_o} / {want_c} (by name)'
-            else:
+
+        def judge(want_status_, roles_):
+            if status != want_status_:
+                return f'{status}, contract says {want_status_} (roles {roles_})'
+            if status == 'ok':
+                want_o = [i for i, r in enumerate(roles_) if r == 'obj']
+                want_c = [i for i, r in enumerate(roles_) if r == 'con']
+                if [o[0] for o in objs] != want_o or [c[0] for c in cons] != want_c:
+                    return f'objectives {[o[0] for o in objs]} constraints {[c[0] for c in cons]}, contract: {want_o} / {want_c} (by name)'
                 claims = []
                 for i, sign in objs:
                     claims.append((ds[i].e <= 0) == z3.BoolVal(sign == -1))
                     if sign not in (-1, 1):
-                        bad = f'sign {sign}'
+                        return f'sign {sign}'
                 for i, sign, ref in cons:
                     claims.append(z3.And((ds[i].e <= 0) == z3.BoolVal(sign == -1), z3val(ref) == rs[i].e))
-                if claims and not bad:
+                if claims:
                     s2 = z3.Solver()
                     s2.add(p.cond(), z3.Not(z3.And(*claims)))
                     if str(s2.check()) != 'unsat':
-                        bad = 'sign / reference of an objective or constraint does not follow its own node'
-        nat = _multi_native(nodes, dv, rv)
+                        return 'sign / reference of an objective or constraint does not follow its own node'
+            return None
+        bad = judge(want_status, roles)
+        if bad:  # nodes that exist in every architecture only through choices may be read either way
+            for reading in _readings(nodes)[1:]:
+                if judge(*_multi_expected(nodes, reading)) is None:
+                    bad = None
+                    break
+        nat = _multi_native(nodes, dv, rv, graph)
         if bad:
             _viol(res, 'classify_multi', dict(kind='contract', **cfg), cfg, inputs, dict(symbolic=bad, native=repr(nat)), [want_status, roles])
         else:
@@ -309,12 +383,12 @@ def _run_classify_multi(inst, res):
     res['sample'] = dict(harness=inst['label'], expected=[want_status, roles], paths=[dict(pc=str(p.pc), outcome=str(p.value)[:200]) for p in ex.paths[:4]])
 
 
-def _multi_native(nodes, dv, rv):
+def _multi_native(nodes, dv, rv, graph=None):
     def num(x):
         if isinstance(x, dict):
             return x['float']
         return x
-    return _multi_outcome(nodes, [num(d) for d in dv], [float(num(r)) if r is not None else None for r in rv])
+    return _multi_outcome(nodes, [num(d) if d is not None else None for d in dv], [float(num(r)) if r is not None else None for r in rv], graph)
 
 
 def _mk_eval_graph(refs):
@@ -521,6 +595,95 @@ def _seq_native(archs, behaviours):
     return problems
 
 
+def _run_evaluate_rnd(inst, res):
+    """every valid design of a seeded random graph is decoded and evaluated by one evaluator (in listing order, so state
+    carried between evaluations shows); the evaluator returns a symbolic real, nothing, or NaN per present metric node
+    (rotating); each returned value must be the evaluator's value / NaN / the reference of an absent constraint"""
+    from adsg_core import DSGEvaluator
+    name = inst['template']
+    nodes, presence, xs = _rnd_nodes(name)
+    want_status, roles = _multi_expected(nodes)
+    if any(c['perm'] == 'maybe' for c in nodes):
+        # (which reading the library takes is decided by classify_rnd; here the one it takes is used)
+        nat = _multi_outcome(nodes, [(-1 if k % 2 else 1) if c['has_dir'] else None for k, c in enumerate(nodes)],
+                             [1.5 if c['has_ref'] else None for c in nodes], name)
+        for reading in _readings(nodes):
+            ws, rl = _multi_expected(nodes, reading)
+            if ws == nat[0] and (ws == 'error' or ([o[0] for o in nat[1]] == [k for k, r in enumerate(rl) if r == 'obj'] and
+                                                   [c[0] for c in nat[2]] == [k for k, r in enumerate(rl) if r == 'con'])):
+                want_status, roles = ws, rl
+                break
+    if want_status == 'error' or not nodes:
+        res['notes'].append('no metric nodes' if not nodes else 'classification is rejected (ambiguous undeclared metric): nothing to evaluate')
+        res['sample'] = dict(harness=inst['label'], skipped=True)
+        return
+    xs, presence = xs[:12], presence[:12]
+    ds = [(-1 if k % 2 else 1) if c['has_dir'] else None for k, c in enumerate(nodes)]
+    rs = [sym_real(f'ref{k+1}') if c['has_ref'] else None for k, c in enumerate(nodes)]
+    vals = [[sym_real(f'v{a}_{k+1}') for k in range(len(nodes))] for a in range(len(xs))]
+    beh = lambda a, k: ('given', 'given', 'missing', 'nan')[(a+2*k) % 4]  # noqa
+
+    def run():
+        g, ms = _mk_rnd_graph(name, ds, rs)
+        calls = []
+
+        class Ev(DSGEvaluator):
+            def _evaluate(self, dsg, metric_nodes):
+                a = len(calls)
+                calls.append(a)
+                out = {}
+                for k, m in enumerate(ms):
+                    if m in metric_nodes:
+                        if beh(a, k) == 'given':
+                            out[m] = vals[a][k]
+                        elif beh(a, k) == 'nan':
+                            out[m] = math.nan
+                return out
+        ev = Ev(g)
+        results = []
+        for x in xs:
+            inst_g, _, _ = ev.get_graph(list(x))
+            o, c = ev.evaluate(inst_g)
+            results.append((list(o), list(c), [m in inst_g.graph.nodes for m in ms]))
+        idx = {id(m): k for k, m in enumerate(ms)}
+        return results, [idx[id(o.node)] for o in ev.objectives], [idx[id(c.node)] for c in ev.constraints]
+    ex = explore(run)
+    absorb(res, ex)
+    if not ex.complete or len(ex.paths) != 1 or ex.paths[0].kind == 'exc':
+        res['status'] = HARNESS_ERROR
+        res['notes'].append(f'{ex.status} {[p.exc for p in ex.paths]}')
+        return
+    results, oidx, cidx = ex.paths[0].value
+    problems = []
+    if oidx != [k for k, r in enumerate(roles) if r == 'obj'] or cidx != [k for k, r in enumerate(roles) if r == 'con']:
+        problems.append(f'objectives {oidx} constraints {cidx}; contract {roles}')
+    else:
+        for a, (o, c, present) in enumerate(results):
+            if present != presence[a]:
+                res['status'] = HARNESS_ERROR
+                res['notes'].append(f'design {xs[a]}: presence differs between two decodes')
+                return
+
+            def want(k):
+                if not present[k]:
+                    return rs[k] if roles[k] == 'con' else math.nan
+                return vals[a][k] if beh(a, k) == 'given' else math.nan
+            if len(o) != len(oidx) or len(c) != len(cidx):
+                problems.append(f'design {xs[a]}: {len(o)} objective / {len(c)} constraint values')
+                continue
+            for got, k in list(zip(o, oidx))+list(zip(c, cidx)):
+                res['obligations'] += 1
+                if _val_ok(got, want(k)):
+                    res['discharged'] += 1
+                else:
+                    problems.append(f'design {xs[a]} (evaluation {a}), metric M{k+1} ({roles[k]}, present={present[k]}, evaluator: {beh(a, k)}): {got}, expected {want(k)}')
+    if problems:
+        _viol(res, 'evaluate_rnd', dict(kind='evaluate_rnd', template=name), dict(template=name), dict(designs=xs), problems[:4],
+              'documented evaluate contract for every valid design')
+    res['validated'] += 1
+    res['sample'] = dict(harness=inst['label'], designs=len(xs), roles=roles)
+
+
 def _evaluate_native(arch, behaviour, refs, vals, prestore=False):
     from adsg_core import DSGEvaluator
     g, choice, opts, metrics = _mk_eval_graph(refs)
@@ -567,6 +730,25 @@ def _run_order(inst, res):
     res['sample'] = dict(harness='objective order', orders=orders[:2])
 
 
+def _replay_multi_bad(nat, want_status, roles, inp):
+    def num(x):
+        return x['float'] if isinstance(x, dict) else x
+    if nat[0] != want_status:
+        return True
+    if nat[0] == 'error':
+        return False
+    if [o[0] for o in nat[1]] != [i for i, r in enumerate(roles) if r == 'obj'] or \
+            [c[0] for c in nat[2]] != [i for i, r in enumerate(roles) if r == 'con']:
+        return True
+    for i, sign in nat[1]:
+        if sign != (-1 if num(inp['dirs'][i]) <= 0 else 1):
+            return True
+    for i, sign, ref in nat[2]:
+        if sign != (-1 if num(inp['dirs'][i]) <= 0 else 1) or ref != float(num(inp['refs'][i])):
+            return True
+    return False
+
+
 def replay(rec):
     a = rec['replay_args']
     cfg, inp = a['config'], a['inputs']
@@ -603,24 +785,20 @@ def replay(rec):
                 print('first result after second call', v['first'], 'snapshot', v['snap'], 'base graph values', v['base'])
                 return True
         return bool(probs)
+    if a['check'] == 'evaluate_rnd':
+        r2 = new_result('replay')
+        _run_evaluate_rnd(dict(label='replay', template=cfg['template']), r2)
+        for v in r2['violations'][:1]:
+            print(v['observed'])
+        return bool(r2['violations'])
     if a['check'] == 'classify_multi':
-        nat = _multi_native(cfg['nodes'], inp['dirs'], inp['refs'])
+        nat = _multi_native(cfg['nodes'], inp['dirs'], inp['refs'], cfg.get('graph'))
+        for reading in _readings(cfg['nodes']):
+            want_status, roles = _multi_expected(cfg['nodes'], reading)
+            if not _replay_multi_bad(nat, want_status, roles, inp):
+                print(f'library -> {nat}: matches the contract {want_status} {roles}')
+                return False
         want_status, roles = _multi_expected(cfg['nodes'])
         print(f'nodes {cfg["nodes"]} dirs={inp["dirs"]} refs={inp["refs"]}: library -> {nat}; contract -> {want_status} {roles}')
-        if nat[0] != want_status:
-            return True
-        if nat[0] == 'error':
-            return False
-        def num(x):
-            return x['float'] if isinstance(x, dict) else x
-        if [o[0] for o in nat[1]] != [i for i, r in enumerate(roles) if r == 'obj'] or \
-                [c[0] for c in nat[2]] != [i for i, r in enumerate(roles) if r == 'con']:
-            return True
-        for i, sign in nat[1]:
-            if sign != (-1 if num(inp['dirs'][i]) <= 0 else 1):
-                return True
-        for i, sign, ref in nat[2]:
-            if sign != (-1 if num(inp['dirs'][i]) <= 0 else 1) or ref != float(num(inp['refs'][i])):
-                return True
-        return False
+        return True
     return True
